@@ -106,12 +106,12 @@ impl Writer {
             need,
             *cur + need
         );
-        *cur += need;
-
         // Handle fsync based on schedule
         match self.fsync_schedule {
             FsyncSchedule::SyncEach => {
-                // Immediate mmap flush, skip background flusher
+                // Immediate mmap flush, skip background flusher. The entry is published (offset
+                // advanced) only once it is durable: if the flush fails the append fails as a
+                // whole and the next append reuses the space.
                 block.mmap.flush()?;
                 debug_print!(
                     "[writer] immediate fsync: col={}, block_id={}",
@@ -128,6 +128,7 @@ impl Writer {
                 debug_print!("[writer] no fsync: col={}, block_id={}", self.col, block.id);
             }
         }
+        *cur += need;
 
         Ok(())
     }
